@@ -190,3 +190,33 @@ Proof.
   split; [intros Ha; exists (height ctx (length ctx)); exact (acyclic_ranked ctx Ha)|].
   intros [rank Hr]. exact (ranked_acyclic ctx rank Hr).
 Qed.
+
+(* ------------------------------------------------------------------ concrete contexts (non-vacuity, witnesses) *)
+Ltac solve_in H :=
+  repeat (destruct H as [H|H]; [try discriminate H; try (injection H as <-; cbn; lia)|]); try destruct H.
+
+Lemma ex_ctx_acyclic : acyclic [("a", JStr "<%(b)s>"); ("b", JStr "B")].
+Proof.
+  apply (ranked_acyclic _ (fun n => if String.eqb n "a" then 1 else 0)). split.
+  - intros w s n El Hin. cbn in El. destruct (String.eqb w "a") eqn:Ea.
+    + injection El as <-. vm_compute in Hin. solve_in Hin.
+    + destruct (String.eqb w "b"); [|discriminate]. injection El as <-. vm_compute in Hin. solve_in Hin.
+  - intros n. cbn. destruct (String.eqb n "a"); lia.
+Qed.
+
+(* statically acyclic, but the value of a completes a reference to a itself once b = "%" is substituted *)
+Definition np_ctx : alist := [("a", JStr "%(b)s(a)s"); ("b", JStr "%")].
+
+Lemma np_ctx_acyclic : acyclic np_ctx.
+Proof.
+  apply (ranked_acyclic _ (fun n => if String.eqb n "a" then 1 else 0)). split.
+  - intros w s n El Hin. unfold np_ctx in El. cbn in El. destruct (String.eqb w "a") eqn:Ea.
+    + injection El as <-. vm_compute in Hin. solve_in Hin.
+    + destruct (String.eqb w "b"); [|discriminate]. injection El as <-. vm_compute in Hin. solve_in Hin.
+  - intros n. cbn. destruct (String.eqb n "a"); lia.
+Qed.
+
+Lemma self_ctx_cyclic : ~ acyclic [("a", JStr "%(a)s")].
+Proof.
+  intros H. apply (H "a"). apply t_step. exists "%(a)s". split; [reflexivity|]. vm_compute. left. reflexivity.
+Qed.
